@@ -129,6 +129,7 @@ def items(tier):
 
 
 GIT_FOR_STATE = {}
+RAN_FOR = __import__("re").compile(r"\(Ran for [^)]*\)")
 PATH_PREFIXES = ("Would delete ", "Deleting ", "✨ Done! Archive saved as ")
 
 
@@ -139,7 +140,7 @@ def normalize(text, cwd, root):
             if l.startswith(p):
                 path = l[len(p):]
                 l = p + os.path.normpath(os.path.join(cwd, path))
-        lines.append(l.replace(root, "<ROOT>"))
+        lines.append(RAN_FOR.sub("(Ran for T)", l.replace(root, "<ROOT>")))
     return lines
 
 
